@@ -234,6 +234,8 @@ fn programs(family: &str) -> Vec<(String, Outcome)> {
             p("k := 1\ng :: pu do\n    k = 2\nend\nstart :: fn do\n    g()\nend\n", Outcome::Reject);
             p("k := 1\ng :: pu do\n    if true do\n        loop false do\n            k = 2\n        end\n    end\nend\nstart :: fn do\n    g()\nend\n", Outcome::Reject);
             p("twice :: pu f: pu -> int -> int do\n    ret f() + f()\nend\nk := 1\nnext :: fn -> int do\n    k += 1\n    ret k\nend\nstart :: fn do\n    print(twice(next))\nend\n", Outcome::Reject);
+            p("k := 1\ng :: pu do\n    f :: fn do\n        k = 2\n    end\nend\nstart :: fn do\n    g()\nend\n", Outcome::Reject);
+            p("k := 1\ng :: pu do\n    if true do\n        f :: fn do\n            m := k\n        end\n    end\nend\nstart :: fn do\n    g()\nend\n", Outcome::Reject);
             p("start :: fn do\n    m := 1\n    m = 2\nend\n", Outcome::Accept);
         }
         "shape" => {
@@ -241,6 +243,8 @@ fn programs(family: &str) -> Vec<(String, Outcome)> {
             p("start :: fn do\n    continue\nend\n", Outcome::Reject);
             p("start :: fn do\n    if true do\n        break\n    end\nend\n", Outcome::Reject);
             p("start :: fn do\n    loop true do\n        if true do\n            break\n        end\n    end\nend\n", Outcome::Accept);
+            p("start :: fn do\n    loop true do\n        f :: fn do\n            break\n        end\n        f()\n        break\n    end\nend\n", Outcome::Reject);
+            p("start :: fn do\n    i := 0\n    loop i < 3 do\n        i += 1\n        g :: fn -> int do\n            continue\n            ret 1\n        end\n        print(g())\n    end\nend\n", Outcome::Reject);
             p("start :: fn do\n    t := (1, 2)\n    print(t[2])\nend\n", Outcome::Reject);
             p("start :: fn do\n    t := (1, 2)\n    print(t[1])\nend\n", Outcome::Accept);
             p("start :: fn do\n    t := (1, 2)\n    t = (1, 2, 3)\nend\n", Outcome::Reject);
